@@ -1,0 +1,271 @@
+//go:build verif
+
+// Export shims for the external verification harness (build tag "verif").
+// Add-only: nothing here is referenced by the package itself and no existing
+// declaration is changed; without the tag this file is not compiled.
+
+package rapid
+
+import (
+	"time"
+)
+
+const VerifVersion = rapidVersion
+
+// ---------------------------------------------------------------- flags
+
+type VerifFlags struct {
+	Checks     int
+	Steps      int
+	Failfile   string
+	Nofailfile bool
+	Seed       uint64
+	Log        bool
+	Verbose    bool
+	Debug      bool
+	ShrinkTime time.Duration
+}
+
+func VerifGetFlags() VerifFlags {
+	return VerifFlags{flags.checks, flags.steps, flags.failfile, flags.nofailfile, flags.seed, flags.log, flags.verbose, flags.debug, flags.shrinkTime}
+}
+
+func VerifSetFlags(f VerifFlags) {
+	flags.checks = f.Checks
+	flags.steps = f.Steps
+	flags.failfile = f.Failfile
+	flags.nofailfile = f.Nofailfile
+	flags.seed = f.Seed
+	flags.log = f.Log
+	flags.verbose = f.Verbose
+	flags.debug = f.Debug
+	flags.shrinkTime = f.ShrinkTime
+}
+
+func VerifBaseSeed() uint64 { return baseSeed() }
+
+// ---------------------------------------------------------------- streams and recordings
+
+type VerifGroup struct {
+	Begin      int
+	End        int
+	Label      string
+	Standalone bool
+	Discard    bool
+}
+
+type VerifRec struct {
+	Data   []uint64
+	Groups []VerifGroup
+}
+
+func verifRecOut(rec recordedBits) VerifRec {
+	out := VerifRec{Data: append([]uint64(nil), rec.data...)}
+	for _, g := range rec.groups {
+		out.Groups = append(out.Groups, VerifGroup{g.begin, g.end, g.label, g.standalone, g.discard})
+	}
+	return out
+}
+
+func verifRecIn(rec VerifRec) recordedBits {
+	in := recordedBits{data: append([]uint64(nil), rec.Data...), persist: true}
+	for _, g := range rec.Groups {
+		in.groups = append(in.groups, groupInfo{g.Begin, g.End, g.Label, g.Standalone, g.Discard})
+	}
+	return in
+}
+
+type VerifStream struct {
+	s   bitStream
+	buf *bufBitStream
+	rnd *randomBitStream
+}
+
+func VerifBufStream(buf []uint64, persist bool) *VerifStream {
+	b := newBufBitStream(append([]uint64(nil), buf...), persist)
+	return &VerifStream{s: b, buf: b}
+}
+
+func VerifRandStream(seed uint64, persist bool) *VerifStream {
+	r := newRandomBitStream(seed, persist)
+	return &VerifStream{s: r, rnd: r}
+}
+
+func (v *VerifStream) DrawBits(n int) uint64 { return v.s.drawBits(n) }
+func (v *VerifStream) BeginGroup(label string, standalone bool) int {
+	return v.s.beginGroup(label, standalone)
+}
+func (v *VerifStream) EndGroup(i int, discard bool) { v.s.endGroup(i, discard) }
+
+func (v *VerifStream) Rec() VerifRec {
+	if v.buf != nil {
+		return verifRecOut(v.buf.recordedBits)
+	}
+	return verifRecOut(v.rnd.recordedBits)
+}
+
+func (v *VerifStream) Rest() []uint64 {
+	if v.buf == nil {
+		return nil
+	}
+	return append([]uint64(nil), v.buf.buf...)
+}
+
+func VerifPrune(rec VerifRec) VerifRec {
+	r := verifRecIn(rec)
+	r.prune()
+	return verifRecOut(r)
+}
+
+func VerifWithout(data []uint64, groups ...VerifGroup) []uint64 {
+	gs := make([]groupInfo, len(groups))
+	for i, g := range groups {
+		gs[i] = groupInfo{g.Begin, g.End, g.Label, g.Standalone, g.Discard}
+	}
+	return without(data, gs...)
+}
+
+func VerifJsf(seed uint64, n int) []uint64 {
+	var ctx jsf64ctx
+	ctx.init(seed)
+	out := make([]uint64, n)
+	for i := range out {
+		out[i] = ctx.rand()
+	}
+	return out
+}
+
+// ---------------------------------------------------------------- T
+
+func VerifNewT(tb TB, s *VerifStream, tbLog bool) *T { return newT(tb, s.s, tbLog, nil) }
+
+// VerifTWords returns the not yet consumed words of a buffer-backed T (nil, false otherwise).
+func VerifTWords(t *T) ([]uint64, bool) {
+	b, ok := t.s.(*bufBitStream)
+	if !ok {
+		return nil, false
+	}
+	return append([]uint64(nil), b.buf...), true
+}
+
+func VerifTStream(t *T) *VerifStream {
+	switch s := t.s.(type) {
+	case *bufBitStream:
+		return &VerifStream{s: s, buf: s}
+	case *randomBitStream:
+		return &VerifStream{s: s, rnd: s}
+	}
+	return &VerifStream{s: t.s}
+}
+
+func VerifTDraws(t *T) int { return t.draws }
+
+func VerifValue[V any](g *Generator[V], t *T) V { return g.value(t) }
+
+// ---------------------------------------------------------------- errors and engine entry points
+
+type VerifErr struct {
+	err *testError
+}
+
+func (e VerifErr) IsNil() bool { return e.err == nil }
+func (e VerifErr) Kind() string {
+	switch {
+	case e.err == nil:
+		return "none"
+	case e.err.isInvalidData():
+		return "invalid"
+	case e.err.isStopTest():
+		return "stop"
+	}
+	return "panic"
+}
+func (e VerifErr) Msg() string       { return errorString(e.err) }
+func (e VerifErr) Traceback() string { return traceback(e.err) }
+
+func VerifSameError(a, b VerifErr) bool { return sameError(a.err, b.err) }
+
+func VerifCheckOnce(t *T, prop func(*T)) VerifErr { return VerifErr{checkOnce(t, prop)} }
+
+func VerifFindBug(tb TB, deadline time.Time, checks int, seed uint64, prop func(*T)) (int, int, bool, uint64, VerifErr) {
+	valid, invalid, early, seed, err := findBug(tb, deadline, checks, seed, prop)
+	return valid, invalid, early, seed, VerifErr{err}
+}
+
+type VerifDoCheckResult struct {
+	Valid, Invalid int
+	EarlyExit      bool
+	Seed           uint64
+	Failfile       string
+	Buf            []uint64
+	Err1, Err2     VerifErr
+}
+
+func VerifDoCheck(tb TB, deadline time.Time, checks int, seed uint64, failfile string, globFailFiles bool, prop func(*T)) VerifDoCheckResult {
+	valid, invalid, early, seed, ff, buf, err1, err2 := doCheck(tb, deadline, checks, seed, failfile, globFailFiles, prop)
+	return VerifDoCheckResult{valid, invalid, early, seed, ff, buf, VerifErr{err1}, VerifErr{err2}}
+}
+
+func VerifCheckTB(tb TB, deadline time.Time, prop func(*T)) { checkTB(tb, deadline, prop) }
+
+func VerifCheckFuzz(tb TB, prop func(*T), input []byte) { checkFuzz(tb, prop, input) }
+
+func VerifCheckFailFile(tb TB, failfile string, prop func(*T)) ([]uint64, VerifErr, VerifErr) {
+	buf, err1, err2 := checkFailFile(tb, failfile, prop)
+	return buf, VerifErr{err1}, VerifErr{err2}
+}
+
+func VerifShrink(tb TB, deadline time.Time, rec VerifRec, err VerifErr, prop func(*T)) ([]uint64, VerifErr) {
+	buf, err2 := shrink(tb, deadline, verifRecIn(rec), err.err, prop)
+	return buf, VerifErr{err2}
+}
+
+func VerifMinimize(u uint64, cond func(uint64, string) bool) uint64 { return minimize(u, cond) }
+
+func VerifCompareData(a []uint64, b []uint64) int { return compareData(a, b) }
+
+// ---------------------------------------------------------------- primitives
+
+func VerifGenFloat01(s *VerifStream) float64          { return genFloat01(s.s) }
+func VerifGenGeom(s *VerifStream, p float64) uint64   { return genGeom(s.s, p) }
+func VerifCoin(s *VerifStream, p float64) bool        { return flipBiasedCoin(s.s, p) }
+func VerifGenIndex(s *VerifStream, n int, b bool) int { return genIndex(s.s, n, b) }
+func VerifGenUintNNoReject(s *VerifStream, max uint64) uint64 {
+	return genUintNNoReject(s.s, max)
+}
+func VerifGenUintN(s *VerifStream, max uint64, bias bool) (uint64, bool, bool) {
+	return genUintN(s.s, max, bias)
+}
+func VerifGenUintRange(s *VerifStream, min uint64, max uint64, bias bool) (uint64, bool, bool) {
+	return genUintRange(s.s, min, max, bias)
+}
+func VerifGenIntRange(s *VerifStream, min int64, max int64, bias bool) (int64, bool, bool) {
+	return genIntRange(s.s, min, max, bias)
+}
+func VerifGenFloatRange(s *VerifStream, min float64, max float64, signifBits uint) (bool, int32, uint64, uint64) {
+	return genFloatRange(s.s, min, max, signifBits)
+}
+func VerifDie(s *VerifStream, weights []int) int { return newLoadedDie(weights).roll(s.s) }
+
+type VerifRepeat struct{ r *repeat }
+
+func VerifNewRepeat(minCount int, maxCount int, avgCount float64, label string) VerifRepeat {
+	return VerifRepeat{newRepeat(minCount, maxCount, avgCount, label)}
+}
+func (r VerifRepeat) More(s *VerifStream) bool { return r.r.more(s.s) }
+func (r VerifRepeat) Reject()                  { r.r.reject() }
+func (r VerifRepeat) PContinue() float64       { return r.r.pContinue }
+func (r VerifRepeat) State() (count int, rejections int, forceStop bool) {
+	return r.r.count, r.r.rejections, r.r.forceStop
+}
+
+// ---------------------------------------------------------------- persistence
+
+func VerifSafeName(f string) string                  { return kindaSafeFilename(f) }
+func VerifFailFileName(name string) (string, string) { return failFileName(name) }
+func VerifFailFilePattern(name string) string        { return failFilePattern(name) }
+func VerifFailTmpPattern() string                    { return failfileTmpPattern }
+func VerifSave(filename string, version string, output []byte, seed uint64, buf []uint64) error {
+	return saveFailFile(filename, version, output, seed, buf)
+}
+func VerifLoad(filename string) (string, uint64, []uint64, error) { return loadFailFile(filename) }
